@@ -832,7 +832,9 @@ fn evaluate(w: &mut Worker, cat: usize, text: &str, confirmed: &AtomicUsize) -> 
 // ---------------------------------------------------------------------------------------------
 // generators
 
-const MB: &[char] = &['\u{e9}', '\u{2764}', '\u{1F600}', '\u{2028}', '\u{85}', '\u{212A}', '\u{17F}', '\u{200E}'];
+// (… and characters that are numeric, alphabetic or white space for Unicode but not for ASCII: superscript two,
+// Arabic-Indic three, one quarter, Roman numeral eight)
+const MB: &[char] = &['\u{e9}', '\u{2764}', '\u{1F600}', '\u{2028}', '\u{85}', '\u{212A}', '\u{17F}', '\u{200E}', '\u{b2}', '\u{663}', '\u{bc}', '\u{2167}'];
 const WS: &[&str] = &["", "", " ", " ", "\n", "\t", "  ", "\r\n", "\u{85}", "\u{200E}", "\u{2028}", " \u{2029}", "\u{b}\u{c}"];
 const NAMES: &[&str] = &[
     "yacckind", "recoverer", "test_files", "a", "b", "A", "k", "\u{212A}", "s", "\u{17F}", "S", "dupe", "case_insensitive", "size_limit",
@@ -843,7 +845,7 @@ const MEMBERS: &[&str] = &[
     "CPCTPlus", "None", "x", "Y_z", "\u{17F}\u{212A}",
 ];
 const NUMS: &[&str] = &[
-    "0", "1", "007", "42", "1000000", "18446744073709551615", "18446744073709551616", "018446744073709551615", "99999999999999999999999",
+    "0", "1", "007", "42", "1000000", "1\u{b2}", "\u{663}", "4\u{bc}", "\u{2167}", "18446744073709551615", "18446744073709551616", "018446744073709551615", "99999999999999999999999",
     "00000000000000000000000000000001", "340282366920938463463374607431768211456", "4294967296",
 ];
 const STRS: &[&str] = &["\"\"", "\"a\"", "\"*.test\"", "\"a\\\"b\"", "\"\\\\\"", "\"\u{e9}\u{1F600}\"", "\"a\nb\"", "\"\\n\"", "\"x y\"", "\"[\"", "\"}\""];
@@ -958,6 +960,7 @@ const YACC_EDGES: &[&str] = &[
     "%start", "%start ", "%start\nA", "%start A\n%start B\n%start A %%", "%start 1", "%start \u{e9}", "%start A.b_c9 x",
     "%epp", "%epp a", "%epp a ", "%epp a 'x", "%epp a 'x'", "%epp a \"x\\\"y\\'z\"\n%%", "%epp a 'x\\qy'", "%epp a 'x\\", "%epp a 'x\ny'", "%epp a x",
     "%epp 'a' \"1\"\n%epp a \"2\"\n%epp \"a\" '3'\n%%\nS: a;", "%epp a\n'x'", "%epp \u{e9} 'x'", "%epp a '\u{e9}\\'\u{1F600}'%%",
+    "%expect 1\u{b2}", "%expect-rr \u{663}\n%%", "%expect \u{bc}", "%expect 2\u{2167}\n%%\nA: ;", "%expect-rr 1\u{b2}\u{b2}",
     "%expect", "%expect ", "%expect x", "%expect 1", "%expect 1 2\n%%", "%expect 18446744073709551615\n%expect 18446744073709551616\n%%",
     "%expect 1\n%expect 2\n%expect-rr 1\n%expect-rr 007\n%expect 3\n%%", "%expect-rr", "%expect-rr\n1", "%expect-r 1", "%expect-unused", "%expect-unused A 'b' \"c\" d.e %%",
     "%expect-unused 1", "%expect-unused A\nB\n%token x\n%%", "%expect-unused \u{e9}", "%expect-unused ''", "%expect-unusedA\n%%",
